@@ -76,6 +76,10 @@ func NewEmptyRecord(len int) Record {
 }
 
 func (r Record) GroupLen() int {
+	if len(r) < 1 {
+		// a record of a table without fields
+		return 0
+	}
 	return len(r[0])
 }
 
